@@ -814,14 +814,21 @@ type C13cSc struct {
 	Via     string // wire | wrapper
 	Mutable bool
 	Refresh bool
+	// Refused: half-way through the lifetime a put that the store must refuse arrives (same seq with
+	// another value, or a lower seq): it must not extend the stored item's life
+	Refused string // "" | same-seq | lower-seq
 }
 
 func genC13c(t *rapid.T) C13cSc {
-	return C13cSc{Via: rapid.SampledFrom([]string{"wire", "wrapper"}).Draw(t, "via"), Mutable: rapid.Bool().Draw(t, "mutable"), Refresh: rapid.Bool().Draw(t, "refresh")}
+	sc := C13cSc{Via: rapid.SampledFrom([]string{"wire", "wrapper"}).Draw(t, "via"), Mutable: rapid.Bool().Draw(t, "mutable"), Refresh: rapid.Bool().Draw(t, "refresh")}
+	if sc.Mutable && !sc.Refresh {
+		sc.Refused = pick(t, "refused", "", "same-seq", "lower-seq")
+	}
+	return sc
 }
 
 func runC13c(sc C13cSc, c *kit.Case) *kit.Violation {
-	const exp = 25 * time.Millisecond
+	const exp = 40 * time.Millisecond
 	sv := newSrv(SrvOpts{NodeID: [20]byte{4, 6}, Exp: exp})
 	defer sv.Close()
 	wrapper := bep44.NewWrapper(sv.Store, exp)
@@ -846,8 +853,23 @@ func runC13c(sc C13cSc, c *kit.Case) *kit.Violation {
 			return kit.Violatef("C13:valid-put-refused", "refresh (same seq, same value) refused: %v", err)
 		}
 	}
-	time.Sleep(exp + 10*time.Millisecond)
-	what := fmt.Sprintf("item (mutable=%v, refreshed=%v) older than the expiry of %v", sc.Mutable, sc.Refresh, exp)
+	stored := time.Now()
+	if sc.Refused != "" {
+		time.Sleep(exp / 2)
+		other := "7:another"
+		it3 := bep44.Item{V: "another", K: it.K, Seq: 1}
+		if sc.Refused == "lower-seq" {
+			it3.Seq = 0
+		}
+		copy(it3.Sig[:], refmodel.Bep44Sign(key.priv, nil, it3.Seq, []byte(other)))
+		if err := wrapper.Put(&it3); err == nil {
+			return kit.Violatef("C13:put-accepted-against-rule-[302]", "a put with seq=%d and another value was accepted over the stored seq=1", it3.Seq)
+		}
+	}
+	if rest := exp + 10*time.Millisecond - time.Since(stored); rest > 0 {
+		time.Sleep(rest)
+	}
+	what := fmt.Sprintf("item (mutable=%v, refreshed=%v, refused put in between=%q) older than the expiry of %v", sc.Mutable, sc.Refresh, sc.Refused, exp)
 	switch sc.Via {
 	case "wrapper":
 		if got, err := wrapper.Get(target); err == nil {
@@ -898,6 +920,6 @@ func init() {
 		[]string{"interleavings are owned at the granularity of the underlying store's calls; calls blocked elsewhere (a lock) simply do not appear among the schedulable calls"},
 		genC13b, runC13b)
 	kit.Register("C13c",
-		"rapid: an item (mutable/immutable, optionally refreshed with the same seq and value) is stored with Exp=25ms; after sleeping Exp+10ms it must not be served by the wire get nor by the store API (sound: the elapsed time is at least Exp whatever the scheduling).",
+		"rapid: an item (mutable/immutable, optionally refreshed with the same seq and value) is stored with Exp=40ms, optionally followed half-way by a put the store must refuse (same seq other value, lower seq); Exp+10ms after it was stored it must not be served by the wire get nor by the store API (sound: the elapsed time is at least Exp whatever the scheduling).",
 		nil, genC13c, runC13c)
 }
